@@ -150,7 +150,8 @@ def logit_cases(draw, op):
     c = {"op": op, "x": rows, "dtype": draw(st.sampled_from(["float32", "float64"])),
          "g": [gpat[j % len(gpat)] for j in range(n)],
          "form": draw(st.sampled_from(["fn", "module"])), "transposed": draw(st.booleans()),
-         "layout": draw(st.sampled_from(["C", "C", "F", "strided"]))}
+         "layout": draw(st.sampled_from(["C", "C", "F", "strided"])),
+         "reused": draw(st.booleans()), "neg_dim": draw(st.booleans())}
     if op == "cross_entropy":
         lp = [draw(st.integers(0, k - 1)) for _ in range(min(n, 7))]
         c["labels"] = [lp[(j * j + j) % len(lp)] for j in range(n)]
@@ -181,9 +182,15 @@ def check_logits(c, rec):
         dim = 0 if transposed else draw_dim(c)
         t = Tensor(data, requires_grad=True)
         if c["form"] == "module":
-            out = (nn.Softmax if op == "softmax" else nn.LogSoftmax)(dim)(t)
+            dim = dim - 2 if (c.get("neg_dim") and dim >= 0) else dim      # the same axis of a 2-d input, spelled negatively
+            m = (nn.Softmax if op == "softmax" else nn.LogSoftmax)(dim)
+            if c.get("reused"):
+                from ..nnops import used_before
+                used_before(m, t.shape, t.dtype)           # the same layer object saw a higher-rank input before
+                rec.tag("module_used_before_on_another_rank")
+            out = m(t)
         else:
-            out = getattr(F, op)(t, dim)
+            out = getattr(F, op)(t, dim - 2 if (c.get("neg_dim") and dim >= 0) else dim)
         if op == "softmax":
             want = sm
             wgrad = sm * (g64 - (g64 * sm).sum(axis=1, keepdims=True))
